@@ -327,6 +327,20 @@ def rule_D(run, prog, cls):
     run.obligation(rid, "EvolutionSuperOperator.calculate_next", ok, key="later-steps",
                    message="later incremental steps must apply the stored first interval to the previous "
                            "value at ti = now + 1", loc=f.loc(first[0]))
+    # the running value must own its storage: rebinding self.data to an array that is also held
+    # elsewhere (the stored first interval) makes the in-place update overwrite the step as well
+    rebind = [n for m_ in ("calculate_next", "calculate") for n in ast.walk(cls.methods[m_].node)
+              if isinstance(n, ast.Assign) and any(norm(t_) in ("self.data", "self._data") for t_ in n.targets)
+              and not (isinstance(n.value, ast.Call) and call_name(n.value) in ("zeros", "copy", "array", "tensordot", "einsum"))]
+    run.obligation(rid, "EvolutionSuperOperator.calculate_next", not rebind, key="no-aliasing",
+                   message="the superoperator's data are rebound to an existing array (%s): the in-place update of "
+                           "later steps then also overwrites that array" % [norm(n) for n in rebind],
+                   loc=f.loc(rebind[0]) if rebind else f.loc(), sample={"rebinding_assignments": len(rebind)})
+    sudt = [n for n in ast.walk(f.node) if isinstance(n, ast.Assign) and norm(n.targets[0]) == "self.Udt"]
+    ok = all(isinstance(n.value, ast.Call) for n in sudt) and len(sudt) == 1
+    run.obligation(rid, "EvolutionSuperOperator.calculate_next", ok, key="step-owned",
+                   message="the stored first interval must be the fresh result of the one-step routine, not an alias "
+                           "of the running value", loc=f.loc())
     # 'now' advances exactly once on every path of both branches
     def count_now(stmts):
         """min and max number of 'self.now += 1' over paths"""
